@@ -270,7 +270,7 @@ func (u *Unit) ZeroValOrTuple(t types.Type) Val {
 
 func paramNames(fc *FuncContract, callee *ssa.Function, sig *types.Signature) []string {
 	var names []string
-	if callee != nil {
+	if callee != nil && len(callee.Params) > 0 {
 		for _, p := range callee.Params {
 			names = append(names, p.Name())
 		}
